@@ -141,6 +141,32 @@ def run(p: Program, rep: Report, tier: str) -> None:
             else:
                 rep.violation("R20.3", construct(fa, text=f"body {show(body)[:60]}"), where(fa), "wsgi: the response is rebuilt before the inner application's first chunk was forced (status/headers not yet captured)")
 
+    # ASGI spec: an absent more_body means False. Every read of that key in the ASGI stack must default to False.
+    n_mb = 0
+    for m in p.modules.values():
+        if not m.name.startswith("baize.asgi"):
+            continue
+        for fn_ in m.all_funcs:
+            for c in calls_in(fn_):
+                if isinstance(c.func, ast.Attribute) and c.func.attr == "get" and c.args and isinstance(c.args[0], ast.Constant) and c.args[0].value == "more_body":
+                    n_mb += 1
+                    d = c.args[1] if len(c.args) > 1 else None
+                    if isinstance(d, ast.Constant) and d.value is False:
+                        rep.ok("R20.4", f"{fn_.fq}: message.get('more_body', False)")
+                    else:
+                        rep.violation("R20.4", construct(fn_, c), where(fn_, c), f"{fn_.fq} reads more_body with default {ast.unparse(d) if d else 'None'}: per the ASGI spec an absent more_body means False (the final message of a plain ASGI app is not recognised as final)")
+    # the capture callbacks must accept whatever the inner application sends: no raise, no early exit before the capture
+    for side in ("wsgi", "asgi"):
+        fa = p.cls(f"baize.{side}.middleware:NextResponse").methods["from_app"]
+        cb = fa.nested.get("start_response" if side == "wsgi" else "send")
+        if cb is None:
+            continue
+        rs_ = [n for n in ast.walk(cb.node) if isinstance(n, ast.Raise)]
+        if rs_:
+            rep.violation("R20.4", construct(cb, text="capture callback raises"), where(cb, rs_[0]),
+                          f"{side}: the capture callback raises ({ast.unparse(rs_[0])[:60]}): a start event the bare gateway accepts (e.g. start_response(..., exc_info) before any output) aborts the inner application behind the middleware")
+        else:
+            rep.ok("R20.4", f"{side}: the capture callback never raises")
     # ---------------------------------------------------------------- R20.3 ensure_next
     en = p.module("baize.wsgi.middleware").functions.get("ensure_next")
     if en is None:
@@ -244,5 +270,5 @@ def run(p: Program, rep: Report, tier: str) -> None:
     rep.require_instances("R20.1", 1)
     rep.require_instances("R20.2", 8)
     rep.require_instances("R20.3", 2)
-    rep.require_instances("R20.4", 3)
+    rep.require_instances("R20.4", 6)
     rep.require_instances("R20.5", 8)
